@@ -40,6 +40,8 @@ static const char *verif_EntityName(STEPcomplex *p, const char *) { return p == 
 static void verif_attr_write(STEPcomplex *p, int i, ostream &out, const char *sch) { if (g_aw_calls < 4) { g_aw_part[g_aw_calls] = p; g_aw_idx[g_aw_calls] = i; g_aw_sch[g_aw_calls] = sch; } g_aw_calls++; out << "@"; }
 const char *StrToUpper(const char *w, std::string &s) { s = w; return s.c_str(); }
 #include "complex_write_extract.inc"
+static const char *verif_attr_asStr(STEPcomplex *p, int i, const char *sch) { if (g_aw_calls < 4) { g_aw_part[g_aw_calls] = p; g_aw_idx[g_aw_calls] = i; g_aw_sch[g_aw_calls] = sch; } g_aw_calls++; return "@"; }
+#include "complex_write_str_extract.inc"
 #include "src/clutils/errordesc.cc"
 #include "verif.h"
 
@@ -117,4 +119,20 @@ extern "C" void h_complex_STEPwrite()
     __CPROVER_assert(g_aw_calls == in_n0 + in_n1, "C01 every attribute of every part is written exactly once");
     int ord = 1; for (int c = 0; c < 4; c++) if (c < g_aw_calls) { int p = c < in_n0 ? 0 : 1; int i = c < in_n0 ? c : c - in_n0; if (g_aw_part[c] != g_w_part[p] || g_aw_idx[c] != i || g_aw_sch[c] != sch) ord = 0; }
     __CPROVER_assert(ord, "C01 the attributes are written part by part, in declaration order, for the caller's schema");
+}
+
+/* C01: the string form of the parts of a complex instance is the same text as the stream form: NAME(values) per part, in chain order */
+extern "C" void h_complex_write_string()
+{
+    IN(int, in_n0); IN(int, in_n1);
+    __CPROVER_assume(in_n0 >= 0 && in_n0 <= 2 && in_n1 >= 0 && in_n1 <= 2);
+    for (int i = 0; i < 2; i++) { g_w_part[i] = (STEPcomplex *)malloc(sizeof(STEPcomplex)); }
+    g_w_part[0]->sc = g_w_part[1]; g_w_part[1]->sc = 0; g_w_n[0] = in_n0; g_w_n[1] = in_n1; g_aw_calls = 0;
+    std::string buf; const char *sch = "s";
+    const char *r = g_w_part[0]->STEPcomplex::WriteExtMapEntities(buf, sch);
+    char want[32]; int k = 0;
+    for (int p = 0; p < 2; p++) { want[k++] = 'P'; want[k++] = p ? 'B' : 'A'; want[k++] = '('; int n = p ? in_n1 : in_n0; for (int i = 0; i < 2; i++) if (i < n) { want[k++] = '@'; if (i < n - 1) want[k++] = ','; } want[k++] = ')'; want[k++] = '\n'; }
+    want[k] = 0;
+    __CPROVER_assert(r == buf.c_str() && strcmp(r, want) == 0, "C01 the string form of a complex instance's parts is NAME(values) per part, in chain order, commas between the values");
+    __CPROVER_assert(g_aw_calls == in_n0 + in_n1, "every attribute of every part is written once");
 }
